@@ -13,7 +13,7 @@ def genFacts : Option Facts :=
   Facts.decode FactsC18.checkerRules FactsC18.checkerAtEOF
     FactsC18.topoPlainNodes FactsC18.topoPlainEdges FactsC18.topoPlainBranches
     FactsC18.topoRDNodes FactsC18.topoRDEdges FactsC18.topoRDBranches
-    FactsC18.maxStepPassed FactsC18.defaultSlack FactsC18.modelPreAppends FactsC18.toolsPreAppends
+    FactsC18.maxStepPassed FactsC18.maxStepExported FactsC18.defaultSlack FactsC18.modelPreAppends FactsC18.toolsPreAppends
 
 /-! ## witness scripts -/
 
@@ -27,7 +27,10 @@ def wCfg (rd : List String) (maxStep : Int) : Config :=
 def wOrig : List Msg := [⟨.user, "hi", [], ""⟩]
 
 /-- content chunk first, the tool call in the second chunk -/
-def wLate : Reply := ⟨[⟨"thinking", []⟩, ⟨"", [⟨"c1", "t", "x"⟩]⟩]⟩
-def wDone : Reply := ⟨[⟨"done", []⟩]⟩
+def wLate : Reply := ⟨[⟨"thinking", [], []⟩, ⟨"", [⟨"c1", "t", "x"⟩], []⟩]⟩
+def wDone : Reply := ⟨[⟨"done", [], []⟩]⟩
+
+/-- a head chunk that carries nothing but provider metadata (`Extra`), then the tool call -/
+def wMetaHead : Reply := ⟨[⟨"", [], ["extra:request_id"]⟩, ⟨"", [⟨"c1", "t", "x"⟩], []⟩]⟩
 
 end EinoV.C18
